@@ -55,6 +55,9 @@ pub struct Scenario {
     /// (only HOME, with .config below it), "none" (neither variable)
     #[serde(default = "xdg_default")]
     pub envmode: String,
+    /// paths that are symbolic links on the disk: link (a key of `files`) -> where the bytes live
+    #[serde(default)]
+    pub symlinks: BTreeMap<String, String>,
 }
 fn xdg_default() -> String {
     "xdg".into()
@@ -198,7 +201,17 @@ fn materialise(sc: &Scenario, root: &Path) -> Result<(), String> {
                 bytes[o] = 0xFF;
             }
         }
-        std::fs::write(&fp, bytes).map_err(|e| format!("write {}: {}", p, e))?;
+        match sc.symlinks.get(p) {
+            Some(target) => {
+                let tp = root.join(target);
+                if let Some(d) = tp.parent() {
+                    std::fs::create_dir_all(d).map_err(|e| e.to_string())?;
+                }
+                std::fs::write(&tp, bytes).map_err(|e| format!("write {}: {}", target, e))?;
+                std::os::unix::fs::symlink(&tp, &fp).map_err(|e| format!("symlink {}: {}", p, e))?;
+            }
+            None => std::fs::write(&fp, bytes).map_err(|e| format!("write {}: {}", p, e))?,
+        }
     }
     for (p, n) in &sc.stale {
         let fp = root.join(p);
@@ -842,6 +855,7 @@ pub fn scenario_shape(tier: &str, base_seed: u64, g: u64) -> Scenario {
         config: String::new(),
         flip: None,
         envmode: "xdg".into(),
+        symlinks: BTreeMap::new(),
     };
     // ---- the source --------------------------------------------------------------------------
     let stem = STEMS[r.usize(STEMS.len())];
@@ -869,7 +883,7 @@ pub fn scenario_shape(tier: &str, base_seed: u64, g: u64) -> Scenario {
             }
         }
     };
-    let classes = ["code", "code", "code+eeprom", "code+eeprom", "eeprom-only", "empty", "comments", "fail", "fail", "missing", "part-file", "part-file", "shadowed-part-file", "patterned-data", "local-include", "large", "large", "gen-any", "not-utf8", "source-is-directory", "no-source-option", "unknown-option"];
+    let classes = ["code", "code", "code+eeprom", "code+eeprom", "eeprom-only", "empty", "comments", "fail", "fail", "missing", "part-file", "part-file", "shadowed-part-file", "patterned-data", "no-ram-device", "local-include", "large", "large", "gen-any", "not-utf8", "source-is-directory", "no-source-option", "unknown-option"];
     let mut class = classes[r.usize(classes.len())].to_string();
     if tier == "thorough" && r.chance(1, 60) {
         class = "huge".into();
@@ -903,6 +917,12 @@ pub fn scenario_shape(tier: &str, base_seed: u64, g: u64) -> Scenario {
             };
             sc.files.insert(format!("{}{}", place, p), format!(".equ RAMEND = {}\n.equ SPL = 0x3d\n.device ATmega8\n", 0x100 + r.below(0x300)));
             Some(format!(".include \"{}\"\n    ldi r16, low(RAMEND)\n    ldi r17, high(RAMEND)\n    out SPL, r16\n.eseg\n.dw RAMEND\n", p))
+        }
+        // parts without SRAM and/or EEPROM (sizes of zero in the verbose report)
+        "no-ram-device" => {
+            let dev = ["ATtiny11", "ATtiny12", "ATtiny15", "ATtiny28", "AT90S1200", "ATtiny10"][r.usize(6)];
+            let ee = if matches!(dev, "ATtiny12" | "ATtiny15" | "AT90S1200") && r.chance(1, 2) { ".eseg\n.db 1, 2, 3\n" } else { "" };
+            Some(format!(".device {}\nstart:\n    ldi r16, {}\n    nop\n    rjmp start\n{}", dev, r.below(256), ee))
         }
         // image contents that "erased", "blank" or "line end" logic would key on
         "patterned-data" => {
@@ -968,6 +988,10 @@ pub fn scenario_shape(tier: &str, base_seed: u64, g: u64) -> Scenario {
     } else if !srcdir.is_empty() {
         sc.dirs.push(srcdir.clone());
     }
+    if sc.files.contains_key(&src_rel) && r.chance(1, 12) {
+        // the source as given is a symbolic link; the outputs belong next to the path given
+        sc.symlinks.insert(src_rel.clone(), format!("store/elsewhere/real source{}", ext));
+    }
     sc.envmode = match r.below(12) {
         0 => "home".into(),
         1 if class != "part-file" => "none".into(),
@@ -1003,7 +1027,7 @@ pub fn scenario_shape(tier: &str, base_seed: u64, g: u64) -> Scenario {
             _ => vec!["-e".to_string(), p],
         });
     }
-    if r.chance(1, 3) {
+    if r.chance(1, 3) || (class == "no-ram-device" && r.chance(2, 3)) {
         groups.push(vec![if r.chance(1, 2) { "-v".to_string() } else { "--verbosity".to_string() }]);
     }
     // the source option goes anywhere among the others
@@ -1270,6 +1294,8 @@ fn account(acc: &mut Acc, sc: &Scenario, out: &RunOut, reference: &Reference, ro
     stats.probe("empty_flash_image_with_eeprom_data", built && clen == 0 && elen > 0);
     stats.probe("empty_source", built && clen == 0 && elen == 0);
     stats.probe("local_file_shadows_a_shipped_part_file", sc.source_class == "shadowed-part-file" && built);
+    stats.probe("verbose_report_for_a_part_without_sram", sc.source_class == "no-ram-device" && parsed.verbose && built);
+    stats.probe("source_given_is_a_symbolic_link", !sc.symlinks.is_empty() && built);
     stats.probe("source_missing", sc.source_class == "missing");
     stats.probe("source_not_utf8_rejected", sc.source_class == "not-utf8" && !built);
     stats.probe("source_is_a_directory", sc.source_class == "source-is-directory");
@@ -1584,6 +1610,11 @@ pub fn shrink(scv: &Value) -> Vec<Value> {
                 push(s);
             }
         }
+    }
+    if !sc.symlinks.is_empty() {
+        let mut s = sc.clone();
+        s.symlinks.clear();
+        push(s);
     }
     if sc.hash_seed != 0 {
         let mut s = sc.clone();
